@@ -71,7 +71,7 @@ func (a *Analyzer) hasField(typ string, field string) bool {
 		return false
 	}
 	for i := 0; i < st.NumFields(); i++ {
-		if st.Field(i).Name() == field {
+		if canonicalField(n, st.Field(i).Name()) == field {
 			return true
 		}
 	}
@@ -87,7 +87,7 @@ func (a *Analyzer) requireField(typ string, fields ...string) {
 	for _, f := range fields {
 		found := false
 		for i := 0; i < st.NumFields(); i++ {
-			if st.Field(i).Name() == f {
+			if canonicalField(n, st.Field(i).Name()) == f {
 				found = true
 			}
 		}
